@@ -70,6 +70,12 @@ func init() {
 }
 
 func runC06(p *chk.Prog, r *chk.Report) {
+	// what is re-adopted at a restart is kept: the family test, the happy path and the request tests of convergeBalancer
+	// (FAMILY-KEPT, HAPPY-PATH, REQUEST-CHANGE, shared with C02, C03) - a spurious clear is harmless while the allocator
+	// remembers the address and moves the Service after a restart
+	c02FamilyChanged(p, r)
+	c03Converge(p, r)
+	c02Annotation(p, r)
 	c06ReloadOnly(p, r)
 	fetchCheckedRule(p, r)
 	c06Gate(p, r)
